@@ -111,6 +111,22 @@ def run(ctx):
     allprob = []
     nmodels = 1 if (ctx.replay_model or ctx.replaying) else ctx.pick(30, 1000)
     nontrivial = 0
+    if not (ctx.replay_model or ctx.replaying):
+        # a model whose highest order is sorted in several batches by the trie builder (minimum sort buffer)
+        dm = lc.gen_dense_model(rng)
+        dsess = lc.Session(ctx, dm, "dense")
+        dqs = lc.gen_queries(rng, dm, ctx.pick(150, 1500))
+        dbase = {"arpa": dm.arpa_bytes().decode("latin-1"), "vocab": dm.vocab_bytes().decode("latin-1"), "generator": "lmcommon.gen_dense_model", "queries": dqs[:20]}
+        for typ, opts in (("probing", []), ("trie", ["building_memory=1048576"]), ("atrie", ["building_memory=1048576"]), ("trie", [])):
+            r = dsess.run_impl(lmq, typ, dqs, opts=opts, timeout=600)
+            if not r["head"].startswith("loaded") or len(r["lines"]) != len(dqs):
+                allprob.append(("crash:dense:" + typ, "the dense multi-batch model does not load / answer: %s %s" % (r["head"][:100], r["err"][-200:]), dict(dbase, type=typ, opts=opts), True))
+                continue
+            stats["impl_runs"] = stats.get("impl_runs", 0) + 1
+            stats["dense_model_runs"] = stats.get("dense_model_runs", 0) + 1
+            for sig, what, rq in recombination_oracle(dm, typ, dqs, r["lines"]):
+                allprob.append((sig + ":multi-batch", what, dict(dbase, type=typ, opts=opts, **rq), True))
+        shutil.rmtree(dsess.dir, ignore_errors=True)
     for mi in range(nmodels):
         m = ctx.replay_model or lc.gen_model(rng, max_order=ctx.pick(5, 6), max_vocab=ctx.pick(6, 20))
         sess = lc.Session(ctx, m, "m%d" % mi)
